@@ -93,3 +93,65 @@ def unit(plan, prop, sites):
     items.append(vlib.verus_canary("canary_fallback", "x: u64", []))
     plan.verus.append(VerusUnit("%s_fallback" % prop.lower(), vlib.verus_file(items), fns, ["canary_fallback"]))
     plan.dropped.append("(F) compile() fallbacks: of the `match (lhs, rhs)` that retries with dereferenced variable references only the arms whose pattern mentions Value::MutableReference are kept (verbatim; the generated-function call is renamed to `gen`), every other arm becomes `_ => Err`; Value / Ref are stand-ins")
+
+
+PRELUDE3 = PRELUDE + """
+pub struct Fx3 { pub a: Value, pub b: Value, pub c: Value }
+#[verifier::external_body]
+fn gen3(a: Value, b: Value, c: Value) -> (r: Result<Fx3, E>) ensures r matches Ok(f) ==> f.a == a && f.b == b && f.c == c { unimplemented!() }
+"""
+
+
+def unit3(plan, prop, sites):
+    """the same fallback for functions of THREE operands (`match (a, b, c)`): the generated function receives (deref(a), deref(b), deref(c)) in that order"""
+    items, fns = [PRELUDE3], {}
+    for stem, rel, start_rx, callee in sites:
+        name = "%s.fallback.%s" % (prop, stem)
+        try:
+            text = read_repo(rel)
+            m0 = find_code(text, start_rx)
+            if not m0:
+                raise AnchorLost("site %s not found" % start_rx)
+            found = None
+            for m in find_all_code(text[m0.start():], r"match\s*\(\s*(\w+)\s*,\s*(\w+)\s*,\s*(\w+)\s*\)\s*\{"):
+                e = match_brace(text, m0.start() + m.end() - 1)
+                block = text[m0.start() + m.end():e - 1]
+                if "Value::MutableReference" in block:
+                    found = (m.group(1), m.group(2), m.group(3), block)
+                    break
+            if not found:
+                raise AnchorLost("no three-operand fallback match found after %s" % start_rx)
+            a, b, c, block = found
+            kept = []
+            for attrs, pat, expr in arms_of(block):
+                if "Value::MutableReference" not in pat:
+                    continue
+                ex = expr.strip()
+                if ex.startswith("{") and ex.endswith("}"):
+                    ex = ex[1:-1].strip()
+                ex2 = re.sub(r"(?<!\w)%s\(" % callee, "gen3(", ex)
+                if "gen3(" not in ex2:
+                    raise AnchorLost("arm `%s` does not call %s" % (pat, callee))
+                kept.append("    %s => { %s }" % (pat, ex2.rstrip(",")))
+            if not kept:
+                raise AnchorLost("no MutableReference arm")
+        except AnchorLost as e:
+            plan.anchor_errors.append((name, str(e)))
+            continue
+        fn = "fallback3_" + re.sub(r"\W", "_", stem)
+        items.append("""fn %s(%s: Value, %s: Value, %s: Value) -> (r: Result<Fx3, E>)
+  ensures r matches Ok(f) ==> f.a == deref(%s) && f.b == deref(%s) && f.c == deref(%s),
+{
+  match (%s, %s, %s) {
+%s
+    _ => Err(E {}),
+  }
+}
+""" % (fn, a, b, c, a, b, c, a, b, c, "\n".join(kept)))
+        fns[fn] = name
+        plan.ob(name, "verus", "proved", functions=["%s: NativeFunctionCompiler::compile fallback (%s)" % (rel, stem)],
+                what="when operands arrive as variable references, the function is built from (deref(start), deref(step), deref(bound)) in that order -- every one of the seven reference / value combinations")
+    if not fns:
+        return
+    items.append(vlib.verus_canary("canary_fallback3", "x: u64", []))
+    plan.verus.append(VerusUnit("%s_fallback3" % prop.lower(), vlib.verus_file(items), fns, ["canary_fallback3"]))
